@@ -222,6 +222,21 @@ CLAIMED = {
    technique="proxy execution of the real loop closures in an index-function domain with summation atoms (lambda terms); code-equals-spec-function obligations discharged by z3/cvc5; "
              "bounded execution of the real code for the theorem-level clauses",
    engine="IDX"),
+ "C15": dict(
+   category="proof",
+   text="The real closures of arnoldi_fact (body_fun, its Gram-Schmidt inner_loop, cond_fun), init_arnoldi, the wrapper arnoldi and arnoldi_eigs run in the index domain "
+        "with sum atoms over symbolic batch size, n, cap and an arbitrary loop state, and every result is proved equal entry by entry to the spec: one modified "
+        "Gram-Schmidt step at an arbitrary j and partial state (h_j = <Q_j, w>, conjugate on the basis vector); the inner loop runs j = 0..idx from (A q_idx, 0) "
+        "(for_loop by the invariant rule); column idx of H = (h, ||w||, 0..), Q_{idx+1} = w / max(||w||, tol/2), the returned norm; the stopping rule (idx < "
+        "min(max_iters, n), ||w|| > tol Re H[1,0] for some column or idx <= 0); the initial state; the cap min(max_iters, n) for loop and buffers; the trimming to the "
+        "steps run; arnoldi_eigs: eig applied to the square part H[:-1], Ritz vector i = Q[:, :m] y_i.",
+   design_ref="4.15",
+   note="Orthonormality of the basis and the spectrum claim rest on the modified Gram-Schmidt / Arnoldi theorems (Golub & Van Loan Alg. 10.5.1, Saad Prop. 6.5), ASSUMED and "
+        "exercised by a bounded stand-in on the real code (n <= 30, well-separated spectra), labelled bounded; exact arithmetic: single-pass MGS loses orthogonality in "
+        "floating point on clustered spectra (observed: |Q^H Q - I| = 0.7 after 25 steps on gaussian + 30 I), out of reach; Householder variant and batched starts outside the domain.",
+   technique="proxy execution of the real loop closures in an index-function domain with summation atoms; loop contracts by the invariant rule; code-equals-spec-function "
+             "obligations discharged by z3/cvc5; bounded execution of the real code for the theorem-level clauses",
+   engine="IDX"),
 }
 
 NOT_YET = "check not built yet in this session (framework under construction; see DESIGN.md section 10 for the order of work)"
